@@ -22,6 +22,9 @@ type Case struct {
 	Project sut.Project `json:"project"` // Root is the schema text S
 	NL      string      `json:"nl"`      // line break(s) between S and the trailer
 	Trailer string      `json:"trailer"`
+	// Prelude: a disturbing call sequence on other objects (sut.Disturb: failing Len() calls in the middle
+	// of a literal, failing loads ...) run before the case
+	Prelude int `json:"prelude,omitempty"`
 }
 
 func lenOf(p sut.Project) (n uint, e *sut.ErrInfo, esc *sut.Escape) {
@@ -93,6 +96,11 @@ func byteClass(c byte) string {
 
 func oracle(c Case) *ev.Verdict {
 	S := c.Project.Root
+	if c.Prelude != 0 {
+		sut.Pristine()
+		sut.Disturb(c.Prelude)
+		ev.Class("len", "after a disturbing prelude")
+	}
 	o := sut.Observe(c.Project)
 	if len(o.Escapes) > 0 {
 		e := o.Escapes[0]
@@ -222,11 +230,62 @@ func registerAll() {
 	ev.Register("len", judged)
 	ev.Register("corpus", oracle)
 	ev.Register("first-bytes", oracle)
+	ev.Register("after-failure", oracle)
+	ev.Register("len-after-prelude", judged)
+}
+
+// after-failure table: every kind of call that fails half-way (sut.Disturb preludes 1, 2 and 11 with each
+// unfinished text as the last one) followed by every small schema of a pool - the boundary of a schema
+// must not depend on what was scanned before it
+func TestPropAfterFailure(t *testing.T) {
+	registerAll()
+	ev.KeepFirst("after-failure")
+	pool := []string{"42", "0", "-3", "1.5", `"s"`, "true", "null", "{}", "[]", "@a", "@a | @b", "[1, 2]", `{"k": 7}`, "{\n  \"k\": 7\n}", "42 // {min: 1}", `"s" // note`,
+		"@a // note", "7 /* {min: 0} */", "12 # c", "[\n  42\n]", "{\n  @a: 42\n}", "100", `""`, "false", "9 ", "42\n"}
+	idx := 0
+	var n, bad int64
+	for _, pre := range []int{1, 2, 11} {
+		for last := 0; last < sut.Unfinished(); last++ {
+			for _, S := range pool {
+				for _, tr := range []string{"", "GET /cats"} {
+					idx++
+					if !ev.Mine(idx) {
+						continue
+					}
+					c := Case{Project: sut.Project{Root: S, Types: []sut.Named{{Name: "@a", Text: `"kk"`}, {Name: "@b", Text: `{"n": 1}`}}}, NL: "\n", Trailer: tr,
+						Prelude: pre + sut.Disturbances*last}
+					n++
+					ev.NonTrivial("after-failure", fmt.Sprintf("%d/%d/%s/%s", pre, last, S, tr))
+					if v := oracle(c); v != nil && ev.Report("after-failure", c, v) {
+						bad++
+					}
+				}
+			}
+		}
+	}
+	sut.Pristine()
+	ev.Count("after-failure", n)
+	ev.Sample("after-failure", Case{Project: sut.Project{Root: "42"}, NL: "\n", Trailer: "GET /cats", Prelude: 1})
+	ev.Exhaustive("after-failure", fmt.Sprintf("3 preludes x %d last failing texts x %d schemas x 2 trailers", sut.Unfinished(), len(pool)))
+	if bad > 0 {
+		t.Errorf("VIOLATION-CANDIDATE after-failure: %d", bad)
+	}
 }
 
 func TestPropGenerated(t *testing.T) {
 	registerAll()
 	ev.Rapid(t, "len", ev.N(4000, 20000), genCase, judged)
+}
+
+// the generated cases after a disturbing prelude (every case starts from emptied pools)
+func TestPropGeneratedAfterPrelude(t *testing.T) {
+	registerAll()
+	ev.Rapid(t, "len-after-prelude", ev.N(250, 2500), func(t *rapid.T) Case {
+		c := genCase(t)
+		c.Prelude = rapid.SampledFrom([]int{1, 11, 2, 6, 10, 3, 5}).Draw(t, "prelude") + sut.Disturbances*rapid.IntRange(0, sut.Unfinished()-1).Draw(t, "last")
+		return c
+	}, judged)
+	sut.Pristine()
 }
 
 // the accepted part of the repository's own test corpus x a fixed trailer set x three newline conventions
